@@ -1,4 +1,5 @@
 """c19 — scheduler property; see sched_common.py."""
+import adapter_common
 import sched_common
 
 DEP_FILES = ["SchedModel.v", "SchedLemmas.v", "SchedInv.v", "SchedInv2.v", "SchedProps.v", "SchedInv3.v", "SchedInv4.v", "SchedTheorems.v"]
@@ -8,4 +9,6 @@ PID = "C19"
 def run(chk):
     chk.recheck_proofs()
     sched_common.apply(chk, PID, which=("full" if PID == "C19" else "core"))
+    if not chk.violations:
+        adapter_common.apply(chk)
     chk.assumptions += sched_common.ASSUMPTIONS.get(PID, []) + sched_common.ASSUMPTIONS["*"]
